@@ -36,7 +36,14 @@ import (
 
 const c19Registry = "transport.dialers.m"
 
-func c19IsRegistry(v ssa.Value) bool { return strings.HasSuffix(pathOf(v), c19Registry) }
+// c19IsRegistry: v denotes the registry map - by the path of the package-level storage found by
+// type, also when it is reached through a receiver that every call site binds to it (h5Registry).
+func c19IsRegistry(v ssa.Value) bool {
+	if c19Reg0 != nil {
+		return c19Reg0.isMap(v)
+	}
+	return strings.HasSuffix(pathOf(v), c19Registry)
+}
 
 func g6LastInstr(b *ssa.BasicBlock) ssa.Instruction { return b.Instrs[len(b.Instrs)-1] }
 
@@ -418,6 +425,9 @@ type g6SchemeEval struct {
 	s      string
 	other  bool
 	consts map[string]bool
+	// atom, when set, decides values that are not about the scheme (e.g. the number of
+	// digipeaters in an enumerated case, ip_h5.go); g6TriUnknown leaves the value to eval
+	atom func(v ssa.Value) g6Tri
 }
 
 // reach follows the control flow from block start (without leaving through stop): a branch whose
@@ -456,6 +466,11 @@ func (e *g6SchemeEval) eval(v ssa.Value, isScheme g6SchemePred, depth int) g6Tri
 		return g6TriUnknown
 	}
 	v = origin(v)
+	if e.atom != nil {
+		if t := e.atom(v); t != g6TriUnknown {
+			return t
+		}
+	}
 	switch x := v.(type) {
 	case *ssa.Const:
 		if x.Value != nil && x.Value.Kind() == constant.Bool {
@@ -584,6 +599,9 @@ func g6SchemeSetOf(pkg string, v ssa.Value, truth bool, isScheme g6SchemePred) (
 // ---- the host parameter overrides the host ----------------------------------------------------
 
 func c19IsHostParam(v ssa.Value) bool {
+	if h5HostElem(v) != nil {
+		return true // params["host"][0]: what Get("host") returns when the list is not empty
+	}
 	call, ok := v.(*ssa.Call)
 	if !ok || callName(&call.Call) != "net/url.Values.Get" || len(call.Call.Args) < 2 {
 		return false
@@ -655,6 +673,18 @@ func (j *c19HostJudge) onHost(cd Cond) bool {
 
 // emptyTest: cd says that the value with path gp is (empty=true) or is not (empty=false) "".
 func (j *c19HostJudge) emptyTest(cd Cond, gp string) (empty, ok bool) {
+	// the parameter read as params["host"][0]: an empty list means an empty parameter (that is
+	// what Get returns for it); a non-empty list says nothing about the value
+	if x, lo, hi, neg, isLen := h5LenRange(cd.V); isLen {
+		if pathOf(x)+"[0]" != gp {
+			return false, false
+		}
+		in := cd.Truth != neg // len(list) is known to lie in [lo, hi] (true) or outside (false)
+		if (in && hi < 1) || (!in && lo <= 1 && hi == h5Inf) {
+			return true, true
+		}
+		return false, false
+	}
 	b, isB := cd.V.(*ssa.BinOp)
 	if !isB || (b.Op != token.EQL && b.Op != token.NEQ) {
 		return false, false
@@ -837,10 +867,72 @@ type g6Lockset struct {
 	rec      map[*ssa.Function]map[ssa.Instruction]bool
 	entry    map[*ssa.Function]bool
 	busy     map[*ssa.Function]bool
+	// the dual analysis: the lock is released on every path (not merely "not held on every path")
+	freeRec   map[*ssa.Function]map[ssa.Instruction]bool
+	freeEntry map[*ssa.Function]bool
+	freeBusy  map[*ssa.Function]bool
 }
 
 func g6NewLockset(c *Ctx, isLock, isUnlock func(ssa.CallInstruction) bool) *g6Lockset {
-	return &g6Lockset{c: c, isLock: isLock, isUnlock: isUnlock, rec: map[*ssa.Function]map[ssa.Instruction]bool{}, entry: map[*ssa.Function]bool{}, busy: map[*ssa.Function]bool{}}
+	return &g6Lockset{c: c, isLock: isLock, isUnlock: isUnlock, rec: map[*ssa.Function]map[ssa.Instruction]bool{}, entry: map[*ssa.Function]bool{}, busy: map[*ssa.Function]bool{},
+		freeRec: map[*ssa.Function]map[ssa.Instruction]bool{}, freeEntry: map[*ssa.Function]bool{}, freeBusy: map[*ssa.Function]bool{}}
+}
+
+// entryFree: the lock is certainly not held when fn is entered: at every static call site known in
+// the module the lock is released on every path (a function nobody in the module calls is entered
+// from outside, where the package's lock cannot be held). A deferred call runs at an exit whose
+// state is not followed: not free. Recursion is resolved optimistically (greatest fixpoint).
+func (l *g6Lockset) entryFree(fn *ssa.Function) bool {
+	if v, ok := l.freeEntry[fn]; ok {
+		return v
+	}
+	if l.freeBusy[fn] {
+		return true
+	}
+	l.freeBusy[fn] = true
+	defer delete(l.freeBusy, fn)
+	all := true
+	for _, site := range l.c.siteIdx().sites[fn] {
+		switch site.(type) {
+		case *ssa.Go:
+			continue // runs in another goroutine, which holds nothing
+		case *ssa.Defer:
+			all = false
+		default:
+			if p := site.Parent(); p != nil && !l.free(p)[site] {
+				all = false
+			}
+		}
+	}
+	l.freeEntry[fn] = all
+	return all
+}
+
+// free: for every instruction of fn, whether the lock is released on every path reaching it - the
+// must-analysis of heldAt with the roles of Lock and Unlock exchanged. "Not held on every path"
+// (held) does not exclude a path on which it is held; a call-out or a return needs this one.
+func (l *g6Lockset) free(fn *ssa.Function) map[ssa.Instruction]bool {
+	if m, ok := l.freeRec[fn]; ok {
+		return m
+	}
+	m := g6HeldAtEntry(fn, l.isUnlock, l.isLock, l.entryFree(fn))
+	l.freeRec[fn] = m
+	return m
+}
+
+// freeAtReturn: the lock is certainly released when fn has returned through ret (released on every
+// path to it, or by a deferred unlock registered on every path).
+func (l *g6Lockset) freeAtReturn(fn *ssa.Function, ret *ssa.Return) bool {
+	if l.free(fn)[ret] {
+		return true
+	}
+	released := false
+	eachInstr(fn, func(_ *ssa.BasicBlock, _ int, in ssa.Instruction) {
+		if d, ok := in.(*ssa.Defer); ok && l.isUnlock(d) && instrDominates(d, ret) {
+			released = true
+		}
+	})
+	return released
 }
 
 // entryHeld: the lock is held at every call site of fn (and all call sites are known).
